@@ -189,6 +189,14 @@ class Run:
         bad = grep_gate()
         if bad:
             self.proof['problems'].append('forbidden words: ' + '; '.join(bad[:5]))
+        # every source file of the development is listed in _CoqProject (a stale .vo of an unlisted file lets `make` pass here
+        # and fail on a fresh checkout)
+        listed = set(l.strip() for l in open(os.path.join(COQ, '_CoqProject')) if l.strip().endswith('.v'))
+        for root, _dirs, fs in os.walk(os.path.join(COQ, 'theories')):
+            for f in fs:
+                rel = os.path.relpath(os.path.join(root, f), COQ)
+                if f.endswith('.v') and rel not in listed:
+                    self.proof['problems'].append('%s is not listed in _CoqProject' % rel)
         rc, out = coq_make()
         if rc != 0:
             self.proof['problems'].append('make failed: ' + out[-1500:])
